@@ -92,9 +92,10 @@ var c13Headers = []c13Hdr{
 	{"Content-Encoding", []string{"identity"}}, {"Te", []string{"trailers"}}, {"Trailer", []string{"X-T"}}, {"Connect-Protocol-Version", []string{"1"}},
 	{"Grpc-Status", []string{"3"}}, {"Trailer-X", []string{"y"}}, {"Foo-Bin", []string{"AAE"}}, {"Content-Length", []string{"999"}}, {"Accept", []string{"*/*"}},
 	{"User-Agent", []string{"ua"}}, {"Grpc-Message-Type", []string{"x"}}, {"Connect-Content-Encoding", []string{"identity"}},
+	{"Content-Type", []string{"text/html"}}, // (a second Content-Type line)
 }
 
-var c13Queries = []string{"", "a", "a=%zz", "a=b&a=c", "connect=v0", "x=%20+%2B", "encoding=proto", "message=abc"}
+var c13Queries = []string{"", "a", "a=%zz", "a=b&a=c", "connect=v0", "x=%20+%2B", "encoding=proto", "message=abc", "connect=v1"}
 
 var c13Bodies = [][]byte{nil, {0}, {0xff, 0xfe, 0xfd}, []byte("not a valid message at all"), {0, 0, 0, 0, 1}, {2, 0, 0, 0, 0}, []byte(strings.Repeat("z", 300))}
 
@@ -120,7 +121,7 @@ func init() {
 	unmatchedReqs := []unmatched{
 		{"rest-class", "GET", "/no/such/path", "", false}, {"rest-class-post", "POST", "/v1/unary/extra", "application/json", false}, {"rpc-class-grpc", "POST", "/verif.v1.Svc/Nope", "application/grpc", false},
 		{"rpc-class-connect", "POST", "/other.Svc/M", "application/connect+proto", false}, {"get-class", "GET", "/verif.v1.Svc/Nope?connect=v1&encoding=proto&message=", "", false},
-		{"root", "GET", "/", "", false}, {"grpcweb-class", "POST", "/verif.v1.Svcx/Unary", "application/grpc-web+proto", false}, {"rest-weird-ct", "PUT", "/v9/x%2Fy/z", "text/plain", false},
+		{"root", "GET", "/", "", false}, {"post-without-content-type", "POST", "/no/such/thing", "", false}, {"delete-without-content-type", "DELETE", "/other.Svc/M", "", false}, {"grpcweb-class", "POST", "/verif.v1.Svcx/Unary", "application/grpc-web+proto", false}, {"rest-weird-ct", "PUT", "/v9/x%2Fy/z", "text/plain", false},
 		// media types are case-insensitive, but what the client sent is what the handler must see
 		{"rest-class-ct-case", "POST", "/no/such/upload", "Application/JSON; Charset=UTF-8", false}, {"rest-class-multipart", "POST", "/no/such/form", "multipart/form-data; boundary=----WebKitFormBoundaryAbC123", false},
 		{"grpcweb-class-ct-case", "POST", "/verif.v1.Svcx/Unary", "application/grpc-web+Proto", false}, {"rpc-class-connect-ct-case", "POST", "/other.Svc/M", "Application/Connect+Proto", false},
